@@ -517,6 +517,25 @@ Qed.
 
 (* ---------- the theorem ---------- *)
 
+(* what the three invariants give together, in any state *)
+Lemma ledger_bound w iss ip :
+  QInv w iss (map snd ip) -> VI iss w -> LI ip w ->
+  vS w + ext_out w (map fst ip) <= vR w + per_quote (esett w) (d_mq (w_db w)).
+Proof.
+  intros [Q1 Q2] [Hg [[V1 V2 V3 V4] Hi]] [_ HL].
+  rewrite (wsum_per_quote iss _ (inv_mq _ (g_inv w Hg))) in V4.
+  assert (Hle : per_quote (fun m => cnt (mq_id m) iss) (d_mq (w_db w)) <=
+                per_quote (fun m => esett w m + cnt (mq_id m) (map snd ip)) (d_mq (w_db w))).
+  { apply per_quote_le; [exact V2|]. intros m Hm. destruct (Q1 m Hm) as [Hr [Hz [Ho Hi3]]].
+    pose proof (esett_range w m). pose proof (cnt_nonneg (mq_id m) (map snd ip)).
+    assert (Hs : mq_state m = 0 \/ (mq_state m = 1 \/ mq_state m = 2) \/ mq_state m = 3) by lia.
+    destruct Hs as [Hs|[Hs|Hs]]; [specialize (Hz Hs)|specialize (Ho Hs)|specialize (Hi3 Hs)]; lia. }
+  rewrite per_quote_add in Hle. rewrite <- (wsum_per_quote (map snd ip) _ (inv_mq _ (g_inv w Hg))) in Hle.
+  pose proof (pairs_covered (w_db w) ip (inv_lq _ (g_inv w Hg)) (inv_mq _ (g_inv w Hg))
+                (fun q Hq => proj1 (proj2 (V1 q Hq))) HL) as Hcov.
+  rewrite (out_split w (map fst ip)) in V4. lia.
+Qed.
+
 Theorem no_inflation_ledger cfg h :
   cfg_ok cfg -> honest cfg world0 h -> Forall op_u64 h -> ln_ok cfg world0 h ->
   let '(w, ip) := ltrace cfg world0 h [] in
@@ -527,23 +546,13 @@ Proof.
   intros Hc Hh Hu Hl.
   pose proof (qtrace_vi cfg h world0 [] [] Hc Hh Hu QInv0 VI0) as H.
   pose proof (ltrace_qtrace cfg h world0 [] [] [] eq_refl) as [Ew Ec].
-  pose proof (ltrace_li cfg h world0 [] Hl LI0) as [_ HL].
+  pose proof (ltrace_li cfg h world0 [] Hl LI0) as HL.
   destruct (qtrace cfg world0 h [] []) as [[w iss] cred]. cbn [fst snd] in Ew, Ec.
   destruct (ltrace cfg world0 h []) as [w2 ip]. cbn [fst snd] in *. subst w2 cred.
-  destruct H as [[Q1 Q2] [Hg [[V1 V2 V3 V4] Hi]]].
-  split; [|split; [apply (l_nodup _ _ HL)|]].
-  - rewrite (wsum_per_quote iss _ (inv_mq _ (g_inv w Hg))) in V4.
-    assert (Hle : per_quote (fun m => cnt (mq_id m) iss) (d_mq (w_db w)) <=
-                  per_quote (fun m => esett w m + cnt (mq_id m) (map snd ip)) (d_mq (w_db w))).
-    { apply per_quote_le; [exact V2|]. intros m Hm. destruct (Q1 m Hm) as [Hr [Hz [Ho Hi3]]].
-      pose proof (esett_range w m). pose proof (cnt_nonneg (mq_id m) (map snd ip)).
-      assert (Hs : mq_state m = 0 \/ (mq_state m = 1 \/ mq_state m = 2) \/ mq_state m = 3) by lia.
-      destruct Hs as [Hs|[Hs|Hs]]; [specialize (Hz Hs)|specialize (Ho Hs)|specialize (Hi3 Hs)]; lia. }
-    rewrite per_quote_add in Hle. rewrite <- (wsum_per_quote (map snd ip) _ (inv_mq _ (g_inv w Hg))) in Hle.
-    pose proof (pairs_covered (w_db w) ip (inv_lq _ (g_inv w Hg)) (inv_mq _ (g_inv w Hg))
-                  (fun q Hq => proj1 (proj2 (V1 q Hq))) HL) as Hcov.
-    rewrite (out_split w (map fst ip)) in V4. lia.
-  - intros p Hp. destruct (l_pairs _ _ HL p Hp) as [q [m [Hq [Hid [Hs _]]]]]. exists q. repeat split; assumption.
+  destruct H as [HQ HV].
+  split; [exact (ledger_bound w iss ip HQ HV HL)|]. destruct HL as [_ HL].
+  split; [apply (l_nodup _ _ HL)|].
+  intros p Hp. destruct (l_pairs _ _ HL p Hp) as [q [m [Hq [Hid [Hs _]]]]]. exists q. repeat split; assumption.
 Qed.
 
 (* ---------- the hypotheses are decidable on concrete histories, and satisfiable ---------- *)
